@@ -272,6 +272,7 @@ def handle (st : DState) (line : String) : DState × String :=
   let withBus := fun (b : Bus) => { st with cpu := { st.cpu with arch := { st.cpu.arch with bus := b } } }
   match toks with
   | "S" :: rest => match cmdS st rest with | some s => (s, "ok") | none => bad
+  | "SN" :: rest => match cmdS st rest with | some s => (s, "ok") | none => bad
   | "P" :: rest => match cmdP st rest with | some s => (s, "ok") | none => bad
   | ["X"] =>
     let pre := st.cpu.arch
@@ -350,6 +351,7 @@ def handle (st : DState) (line : String) : DState × String :=
   | ["SF", n8] => match parseHex n8 with
     | some n => let c := st.cpu.setFreqEighths (UInt32.ofNat n); ({ st with cpu := c }, "V " ++ toString c.slice.max.toNat)
     | none => bad
+  | ["NAP", _] => (st, "ok")
   | ["SD", d] => match parseHex d with
     | some d => ({ st with cpu := st.cpu.setSliceDuration (UInt32.ofNat d) }, "ok") | none => bad
   | _ => bad
